@@ -9307,7 +9307,7 @@ class SVG(Group):
                             s = Rect(values)
                         else:  # SVG_TAG_IMAGE == tag:
                             s = Image(values)
-                    except ValueError as e:
+                    except (ValueError, ArithmeticError) as e:
                         parse_error = e
                         if s is None:
                             # s was not established we continue without it.
@@ -9384,7 +9384,16 @@ class SVG(Group):
                     if SVG_ATTR_ID in attributes and root is not None and use == 0:
                         root.objects[attributes[SVG_ATTR_ID]] = s
                 if tag in (SVG_TAG_TEXT, SVG_TAG_TSPAN):
-                    s = Text(values, text=elem.text)
+                    try:
+                        s = Text(values, text=elem.text)
+                    except (ValueError, ArithmeticError) as e:
+                        # The element's own attributes are in error: it is skipped like a shape.
+                        if on_error == "raise":
+                            raise e
+                        context, values = stack.pop()
+                        if on_error == "ignore":
+                            continue
+                        return root
                     s.render(ppi=ppi, width=width, height=height)
                     if reify:
                         s.reify()
